@@ -64,47 +64,7 @@ class Ex(Executor):
             tree = _Mangle(cls).visit(tree)
         return tree, glob, qual
 
-    # ---- frames in the state ----------------------------------------------------------------------------
-    def call_function(self, func, st: State, args: list, kwargs: dict) -> Iterator[tuple[State, str, Any]]:
-        if isinstance(func, Closure):
-            node, glob, qual, cenv = func.node, func.glob, func.name, func.env
-        else:
-            node, glob, qual = self.source_of(func)
-            cenv = {}
-            if getattr(func, "__closure__", None):
-                f = inspect.unwrap(func)
-                for nm, cell in zip(f.__code__.co_freevars, f.__closure__ or ()):
-                    try:
-                        cenv[nm] = cell.cell_contents
-                    except ValueError:
-                        pass
-        env = dict(cenv)
-        self._bind_params(node.args, env, args, kwargs, st, glob, qual)
-        st.ghost.setdefault("__frames__", []).append(st.env)
-        st.env = env
-        self.func_stack.append(qual)
-        frame = (glob, qual)
-
-        def back(s: State) -> State:
-            s.env = s.ghost["__frames__"].pop()
-            return s
-
-        try:
-            if isinstance(node, ast.Lambda):
-                for st2, v in self.ev(node.body, st, frame):
-                    back(st2)
-                    yield (st2, "raise", v) if isinstance(v, Exc) else (st2, "return", v)
-                return
-            for st2, kind, val in self.block(node.body, st, frame):
-                back(st2)
-                if kind == "next":
-                    yield st2, "return", None
-                elif kind in {"return", "raise"}:
-                    yield st2, kind, val
-                else:
-                    raise Unsupported(f"{kind} outside loop")
-        finally:
-            self.func_stack.pop()
+    # (frames of the callers live on the State in the base executor: vlib/pyvc.py, State.frames)
 
     # ---- embedding into Obj ---------------------------------------------------------------------------------
     def as_obj(self, v):
